@@ -14,7 +14,8 @@ From BV Require Import Base.Prelude Model.Block Model.ForkDB Model.Forkable Mode
   Proofs.C06_Lists Proofs.C09_Store Proofs.C09_Segment Proofs.C09_Proofs Proofs.C05_Fast Proofs.C05_Forked Proofs.C05_Through
   Proofs.Fk.LoopFacts Proofs.Hub.ConsFacts Proofs.Hub.HubFed Proofs.Hub.LinkedRuns Proofs.Hub.C09_History
   Proofs.C07_ComposeStack Proofs.C07_ComposeHub Proofs.C07_ComposeRun Proofs.C07_Compose
-  Proofs.C07_ComposeCursor Proofs.C07_ComposeCursorLive Proofs.C07_ComposeCursorAll Proofs.C07_ComposeTarget.
+  Proofs.C07_ComposeCursor Proofs.C07_ComposeCursorLive Proofs.C07_ComposeCursorAll Proofs.C07_ComposeTarget
+  Proofs.C07_Raw Proofs.C07_Disc.
 Local Open Scope N_scope.
 
 (* the stack machine on the upper part st of a stack st ++ R: as long as the full machine succeeds so does the truncated
@@ -294,7 +295,7 @@ Section Off.
     In bn canon -> bnum bn = n ->
     (exists x, lnk x (Q ++ [bn])) -> Forall (fun y => In y U) Q ->
     (forall z r, Q ++ [bn] = z :: r -> bnum z <= start) ->
-    exists J1 E, sfold (rev Q) burst = Some J1 /\ Rel U start (V ++ E) J1.
+    exists J1 E, sfold (rev Q) burst = Some J1 /\ Rel U start (V ++ E) J1 /\ disc U start (rev Q) burst.
   Proof.
     intros HV Hls Eseg Hoff Hn Hb Hbnc Hbnn [x0 HlQ] HQU Hbot.
     destruct (off_shape s V hd sg n burst bn HV Hls Eseg Hoff Hn Hb Hbnc Hbnn)
@@ -332,13 +333,50 @@ Section Off.
       - exists bn, M'. split; [reflexivity | apply (Hbot bn []); reflexivity].
       - exists z0, (Q0 ++ bn :: M'). split; [reflexivity | apply (Hbot z0 (Q0 ++ [bn])); reflexivity]. }
     destruct Hfirst as (z & rz & Ez & Hz).
+    (* every beginning of the own branch leaves a good stack; so does every beginning of the cursor-mode answer, given
+       its end state *)
+    assert (HQst : rev Q = [] \/ Stand U start (rev Q)).
+    { destruct (list_eq_nil_or_cons Q) as [EQ|(q0 & Q0 & EQ)]; [left; rewrite EQ; reflexivity|]. right.
+      split; [rewrite EQ; cbn [rev]; destruct (rev Q0); discriminate|]. split.
+      - split; [apply Forall_forall; intros y Hy; apply in_rev in Hy; rewrite Forall_forall in HQU; exact (HQU y Hy)|].
+        exists x0. rewrite rev_involutive. eapply linked_prefix. exact HlQ.
+      - exists (rev Q0), q0. split; [rewrite EQ; reflexivity | apply (Hbot q0 (Q0 ++ [bn])); rewrite EQ; reflexivity]. }
+    assert (Hprefix : exists t, Qall ++ [T] = H ++ t).
+    { unfold H. destruct (is_undo cu); [exists [T]; reflexivity | exists []; rewrite app_nil_r; reflexivity]. }
+    assert (Hhead : forall h0 H0, H = h0 :: H0 -> h0 = z).
+    { intros h0 H0 EHH. destruct Hprefix as [t Et]. rewrite EHH, Ez in Et. cbn [app] in Et. injection Et as E _. symmetry. exact E. }
+    assert (HHst : rev H = [] \/ Stand U start (rev H)).
+    { destruct (list_eq_nil_or_cons H) as [EHH|(h0 & H0 & EHH)]; [left; rewrite EHH; reflexivity|]. right.
+      split; [rewrite EHH; cbn [rev]; destruct (rev H0); discriminate|]. split.
+      - split; [apply Forall_forall; intros y Hy; apply in_rev in Hy; rewrite Forall_forall in HHU; exact (HHU y Hy)|].
+        exists x0. rewrite rev_involutive. exact HlH.
+      - exists (rev H0), h0. split; [rewrite EHH; reflexivity|]. rewrite (Hhead h0 H0 EHH). exact Hz. }
+    assert (Hdpre : disc U start (rev Q) pre).
+    { assert (HpU : Forall (fun y => In y U) (map eblk pre)) by (rewrite EH in HHU; apply Forall_app in HHU; exact (proj2 HHU)).
+      assert (Hpl : match rev Q with
+                    | top :: _ => lnk (bid top) (map eblk pre)
+                    | [] => (exists x, lnk x (map eblk pre)) /\ (forall z r, map eblk pre = z :: r -> bnum z <= start)
+                    end).
+      { pose proof HlH as HlH'. rewrite EH in HlH'. apply linked_app_iff in HlH' as [_ HlO].
+        destruct (rev Q) as [|top rq] eqn:ErQ.
+        + split; [exists (tip x0 Q); exact HlO|].
+          assert (EQ : Q = []) by (rewrite <- (rev_involutive Q), ErQ; reflexivity).
+          intros z1 r1 Ez1. rewrite (Hhead z1 r1); [exact Hz|]. rewrite EH, EQ, Ez1. reflexivity.
+        + assert (EQ : Q = rev rq ++ [top]) by (rewrite <- (rev_involutive Q), ErQ; reflexivity).
+          rewrite EQ, tip_snoc in HlO. exact HlO. }
+      exact (proj1 (proj2 (pushes_disc U start pre (rev Q) HQst Hprenew HpU Hpl))). }
+    assert (Hdall : forall J1 E, sfold (rev H) evs = Some J1 -> Rel U start (V ++ E) J1 -> disc U start (rev Q) (pre ++ evs)).
+    { intros J1 E HJ1 HR1. apply (disc_app U start (rev Q) (rev H) pre evs Hdpre Hpre).
+      destruct (from_cursor_split s cu evs Hbc) as (us & ns & -> & Hus & Hns).
+      apply (disc_undo_push U start (rev H) us ns J1); [apply stand_good; exact HHst | right; exists (V ++ E); exact HR1 | exact Hus | exact Hns | exact HJ1]. }
     destruct Hcases as [[d EHd]|[d [EKd EKfd]]].
     - (* the consumer holds the cursor LIB block: P = d ++ [L] *)
       destruct (cursor_burst_P U first kept U_id U_uniq U_up s V cu L T K Kf (d ++ [L]) evs HV HL HLU HT HTU EKf HlKf HKfU HtipKf
                   (or_intror (ex_intro _ d eq_refl)) Hbc)
         as (hd' & sg' & lo & xL & hi & Hls' & Eseg' & Hgood & Hsplit & HbL & Hlhi & HhiU & Hfold).
       rewrite <- EHd in Hfold.
-      exists (rev ((d ++ [L]) ++ map seg_blk hi)), []. split; [rewrite sfold_app, Hpre; exact Hfold|].
+      exists (rev ((d ++ [L]) ++ map seg_blk hi)), [].
+      assert (HRB : Rel U start (V ++ []) (rev ((d ++ [L]) ++ map seg_blk hi))); [|split; [rewrite sfold_app, Hpre; exact Hfold|]; split; [exact HRB | exact (Hdall _ [] Hfold HRB)]].
       rewrite app_nil_r.
       destruct (vstate_facts U first kept U_id U_uniq U_up s V HV) as (HVne & HcV & _ & hd0 & Hls0 & Hhd0).
       rewrite Hls' in Hls0. injection Hls0 as <-.
@@ -384,7 +422,7 @@ Section Off.
       + cbn [app] in Ehi. subst hi.
         destruct (cursor_live_rel U first kept U_id U_uniq U_up s V hd' sg' lo xL hiB L start HV Hls' Eseg' Hgood Hsplit HbL HLU Hlhi HhiU ltac:(lia))
           as [E HR].
-        exists E. split; [rewrite sfold_app, Hpre; exact Hst | rewrite Est; exact HR].
+        exists E. rewrite <- Est in HR. split; [rewrite sfold_app, Hpre; exact Hst|]. split; [exact HR | exact (Hdall _ E Hst HR)].
       + rewrite map_app in EA. cbn [map] in EA.
         assert (HLa : In (seg_blk xa) d).
         { apply in_rev. rewrite ER. apply in_or_app. right. apply in_rev. rewrite <- EA. apply in_or_app. right. left. reflexivity. }
@@ -399,6 +437,6 @@ Section Off.
         { apply Forall_app in HhiU as [_ H2]. apply Forall_app in H2 as [H3 _]. exact (Forall_inv H3). }
         destruct (cursor_live_rel U first kept U_id U_uniq U_up s V hd' sg' (lo ++ xL :: hiA0) xa hiB (seg_blk xa) start HV Hls' Eseg' Hgood Hsplit' eq_refl HaU Hlb HbU
                     ltac:(specialize (Hdz _ HLa); lia)) as [E HR].
-        exists E. split; [rewrite sfold_app, Hpre; exact Hst | rewrite Est; exact HR].
+        exists E. rewrite <- Est in HR. split; [rewrite sfold_app, Hpre; exact Hst|]. split; [exact HR | exact (Hdall _ E Hst HR)].
   Qed.
 End Off.
